@@ -3,15 +3,16 @@
 
    input  = nsecs (merge? default-tree)*   nnodes (nlabels (key value)* )*   nops op*
    op     = kind cmap        kind 0 Create, 1 Update(Data changed)              -> OSync
-                             kind 2 Update(Data equal), 3 Delete, 4 other name  -> ONop
+                             kind 2 Update(Data equal) -> OSame, 3 Delete -> ODelete, 4 other name -> OOther
                              kind 5 IsCfgAvailable, ConfigMap in the informer   -> OAvail (Some _)
           | 6                IsCfgAvailable, ConfigMap not found                -> OAvail None
+            (every op is followed by Reconcile of every probe node)
    cmap   = nsections (status style payload?)*   status 0 absent, 1 malformed text (no payload),
                              2 type error (payload, rendered with a wrongly typed field), 3 value
    payload= cluster-tree nentries (selector tree)*
    selector = 0 | 1 nreq (key op nvals val* )*
    tree   = the encoding [Model.enc]
-   observable = after every op, for every node, for every section: [enc] of the effective value *)
+   observable = after every op, for every node, for every section: [enc] of the DELIVERED value (NodeSLO.Spec) *)
 From Coq Require Import List ZArith Bool.
 From Verif Require Import Lib.Wire C20.Model C20.Spec.
 Import ListNotations.
@@ -78,8 +79,10 @@ Definition dec_op (l : list Z) : op * list Z :=
       if k =? 6 then (OAvail None, t)
       else let '(c, r) := dec_cmap t in
            ((if (k =? 0) || (k =? 1) then OSync c
-             else if k =? 5 then OAvail (Some c) else ONop), r)
-  | [] => (ONop, [])
+             else if k =? 2 then OSame c
+             else if k =? 3 then ODelete
+             else if k =? 5 then OAvail (Some c) else OOther), r)
+  | [] => (OOther, [])
   end.
 
 Definition dec_secdef (l : list Z) : secdef * list Z :=
@@ -127,4 +130,4 @@ Definition nontrivial_case (inp : list Z) : bool :=
   let i := decode inp in
   wf_input koord_schemas i
   && existsb (fun oc => match oc with Some c => existsb (sec_selects (in_nodes i)) c | None => false end)
-             (eff_syncs false (in_ops i)).
+             (eff_syncs false None (in_ops i)).
